@@ -1078,3 +1078,34 @@ Lemma split_nesting_example :
   schema_split_terminal (match find_schema "j5.schema.v1.Ref" with Some d => d | None => mkSD "" false [] end) = true /\
   exists ss, bs_split (cont_spec (CSchema "j5.schema.v1.Ref")) = Some ss /\ split_targets ss = [["schema"]; ["package"]]%string.
 Proof. vm_compute. split; [reflexivity|]. eexists. split; reflexivity. Qed.
+
+(* ------------------------------------------------------------------ the class "float literal" is gone
+   model/CmpbWalk.v conv_scalar models strconv.ParseFloat(lit, 64) on every INT / DECIMAL token (float_lit_ok:
+   ASCII digits and the dot; integer part below 2^1024 - 2^970), so [ConvUnmod] is never returned.  The width:
+   every float property of the translated schema is float64 (a float32 property would need the float32 bound). *)
+Lemma no_float32_props :
+  forallb (fun r => match r with (_, _, ps) =>
+             forallb (fun p => match p with (_, _, _, (_, ref, _, _), _) => negb (String.eqb ref "float32") end) ps end)
+          WalkSchemaGen.schemas = true.
+Proof. vm_compute. reflexivity. Qed.
+
+Lemma conv_scalar_modelled k a : conv_scalar k a <> ConvUnmod.
+Proof.
+  destruct k; cbn [conv_scalar].
+  - destruct (as_string a); discriminate.
+  - destruct (as_bool a); discriminate.
+  - destruct (as_int bits a); discriminate.
+  - destruct (as_uint bits a); discriminate.
+  - destruct (float_tok a) as [l|]; [destruct (float_lit_ok l)|]; discriminate.
+  - destruct (as_string a) as [l|]; [|discriminate]. destruct (all_ascii l); [|discriminate].
+    destruct (_ || _); discriminate.
+  - discriminate.
+  - discriminate.
+Qed.
+
+Lemma float_literal_example :
+  conv_scalar KFloat (ATok (mkTok INT (50%N :: repeat 48%N 308) pos0 pos0) span0) = ConvErr /\
+  conv_scalar KFloat (ATok (mkTok INT (49%N :: repeat 48%N 308) pos0 pos0) span0) = ConvOk (2%N, 49%N :: repeat 48%N 308) /\
+  conv_scalar KFloat (ATok (mkTok DECIMAL [49; 46; 1635]%N pos0 pos0) span0) = ConvErr /\
+  conv_scalar KFloat (ATok (mkTok DECIMAL [49; 46]%N pos0 pos0) span0) = ConvOk (2%N, [49; 46]%N).
+Proof. vm_compute. repeat split; reflexivity. Qed.
